@@ -53,6 +53,11 @@ chk("C18", E3, "exploration",
     "bounded-exhaustive input enumeration against an independent reference decoder",
     "Trusted: the schema-driven reference parser in /verif/h/c18/ref.go; value domains per field are small finite sets.")
 
+chk("C12", E3, "exploration",
+    "Sender: every body length 0..64 x every MTU 1..66 through the real fragmentHandshake (partition, per-fragment bound, header consistency, round trip through the real FragmentBuffer). Receiver: FragmentBuffer against an independent byte-coverage reference for every message length <=6 (7), every composition into fragments, zero-length fragments at one or two of every boundary, every subset duplicated once, every distinct arrival permutation, one message and two interleaved messages, after AdvanceTo, plus retransmission of every fragment of delivered messages: 9.2 M arrival sequences quick / 115 M thorough. End-to-end small-MTU handshakes under faults are exercised by the 12-mtu100 variants of C01/C02.",
+    "bounded-exhaustive operation-sequence enumeration against a reference model",
+    "Trusted: the byte-coverage reference model in /verif/h/c12/model.go; overlapping re-partitions are outside the property's quantifier.")
+
 props = [json.loads(l) for l in open('/verif/properties.jsonl')]
 PENDING = "check not built yet in this session (planned in DESIGN.md §5); not a claim that the technique cannot apply"
 NA = {}
